@@ -43,7 +43,7 @@ SCENARIOS = {
     "gate": dict(template="T_gate", base=["b:good", "b:short", "b:poor", "b:netpoor"], reports=REPORTS_GATE, slots=["s1", "s2"], ign=[True, False]),
     "gate2": dict(template="T_gate", base=["b:gaps", "b:east", "b:poor", "b:long", "b:neggas"], reports=REPORTS_GATE, slots=["s1", "s2"], ign=[True, False]),
     "refit": dict(template="T_refit", base=["b:good", "b:short", "b:poor"], reports=["r:wmonth:orig", "r:weast:orig"], slots=["s1"], ign=[True, False]),
-    "store": dict(template="T_store", base=["b:good", "b:poor", "b:short"], reports=["r:wyear:orig", "r:wweek:orig", "r:wpart:absent"], slots=["s1", "s2"], ign=[True]),
+    "store": dict(template="T_store", base=["b:good", "b:poor", "b:short", "b:allheat"], reports=["r:wyear:orig", "r:wweek:orig", "r:wpart:absent"], slots=["s1", "s2"], ign=[True]),
     "store2": dict(template="T_store2", base=["b:good", "b:other"], reports=["r:wweek:orig"], slots=["s1", "s2"], ign=[True]),
     "pure": dict(template="T_pure", base=["b:good", "b:short"], reports=REPORTS_SPAN, slots=["s1"], ign=[True]),
     "inter": dict(template="T_inter", base=["b:good", "b:other"], reports=["r:wyear:orig", "r:wweek:orig"], slots=["s1", "s2"], ign=[False]),
@@ -177,6 +177,7 @@ def features(h):
     fitted = {}
     lastp = None
     scribbled = None    # data whose returned prediction frame the caller has overwritten
+    shortp = {}         # slot -> the short report (a day, a week) it has predicted: not every hour of the week / month of the year occurs in it
     refit = {}          # slot -> (baseline of the earlier fit, had the model predicted before the refit)
     predicted = set()
     docs = []           # baseline behind every stored document
@@ -207,6 +208,10 @@ def features(h):
             f.add(("fit", a["d"], a["ign"]))
         elif op == "predict":
             f.add(("predict", fitted.get(a["s"], "-"), a["d"]))
+            if shortp.get(a["s"]) and a["d"] not in ("r:wday:orig", "r:wweek:orig", "r:wweek:absent"):
+                f.add(("longer-report-predicted-after-a-single-day-or-week", shortp[a["s"]]))
+            if a["d"] in ("r:wday:orig", "r:wweek:orig", "r:wweek:absent"):
+                shortp[a["s"]] = a["d"].split(":")[1]
             if a["s"] in refit:
                 f.add(("predict-after-the-model-object-was-refitted", refit[a["s"]][1]))
             predicted.add(a["s"])
@@ -226,7 +231,7 @@ def features(h):
 
 # features that only a particular sequence of calls exercises: they outweigh the many (baseline x report) pair features
 RARE = {"same-data-predicted-again-after-the-returned-frame-was-overwritten", "used-after-another-model-was-restored", "predict-on-the-fitted-baseline-object",
-        "refit-on-other-data", "predict-after-the-model-object-was-refitted"}
+        "refit-on-other-data", "predict-after-the-model-object-was-refitted", "longer-report-predicted-after-a-single-day-or-week"}
 RARE_WEIGHT = 25
 
 
@@ -433,6 +438,8 @@ def run_property(prop, tier, scen_list, per_scen, assumptions, rule, extra_jobs=
             mstats["%s/%s/%s" % (scen, fam, prof)] = st
             r = common.rng("pick", prop, scen, fam, prof)
             n = per_scen if per_scen is not None else len(hists)
+            if fam == "caltrack" and tier == "quick":
+                n = min(n, 2)          # a CalTRACK hourly fit takes 10-40 s
             chosen = pick_cover(hists, n, r)
             chosen = chosen + reference_histories(chosen)
             for k, h in enumerate(chosen):
